@@ -363,6 +363,33 @@ func runC03(c *core.Ctx) {
 		c.Count("attribute_block_documents", 1)
 	}
 	c03Arena(c, pool, safe)
+	c03Truncated(c, pool)
+}
+
+// c03Truncated: a multi-byte UTF-8 sequence cut short (lead byte alone, or lead plus some continuation bytes) directly
+// before a markup-significant character, in every place whose value is escaped on the way out. An escaper that steps over
+// "the rest of the character" by the length its lead byte announces jumps over exactly that significant byte.
+func c03Truncated(c *core.Ctx, pool *cfg.Pool) {
+	leads := []string{"\xc2", "\xdf", "\xe0", "\xe2", "\xef", "\xf0", "\xf4", "\xf7", "\xe2\x82", "\xf0\x9f", "\xf0\x9f\x98", "\xc3\xc3", "\xf8", "\xfc"}
+	sigs := []string{"\"", "<", ">", "&", "\\\"", "<script>", "\" onx=\"1", "&x", "&#x3c;", "'"}
+	specs := []cfg.Spec{{Ext: cfg.ExtCore}, {Ext: cfg.ExtAll, Attribute: true, XHTML: true}, {Ext: cfg.ExtGFM, Attribute: true, AutoHeadingID: true, HardWraps: true}}
+	k := 0
+	for _, tm := range c03ArenaTmpl {
+		for _, l := range leads {
+			for _, sg := range sigs {
+				k++
+				if !c.Mine(k) {
+					continue
+				}
+				payload := l + sg + "x" + l + sg
+				doc := []byte(strings.ReplaceAll(tm, "%P", payload))
+				for _, sp := range specs {
+					c03Check(c, pool, sp, doc)
+				}
+				c.Count("truncated_multibyte_before_significant_character", 1)
+			}
+		}
+	}
 }
 
 // c03Arena: a caller that recycles its read buffer. Document A puts a harmless payload into a slot (destination, title,
@@ -370,7 +397,7 @@ func runC03(c *core.Ctx) {
 // with a document of the same length that has markup-significant bytes exactly where the payload was; then A is converted
 // again, from a slice of its own and from the buffer. Anything the instance kept of the first conversion that still points
 // into the buffer now reads those bytes - and must not reach the output unescaped. Every output goes through the tokenizer.
-var c03ArenaTmpl = []string{"[a](/%P)", "![a](/%P)", "[a](/u \"%P\")", "![%P](/u)", "```%P\ncode\n```", "# h {#%P}", "# h {title=\"%P\"}", "<http://a.b/%P>",
+var c03ArenaTmpl = []string{"<a@b.c%P>", "<%P@b.c>", "# h {.%P}", "# h {k=%P}", "# h {k='%P'}", "``` a %P\ncode\n```", "~~%P~~", "[a](/%P)", "![a](/%P)", "[a](/u \"%P\")", "![%P](/u)", "```%P\ncode\n```", "# h {#%P}", "# h {title=\"%P\"}", "<http://a.b/%P>",
 	"[a][r]\n\n[r]: /%P 'x'", "[a][r]\n\n[r]: /u '%P'", "| %P |\n|---|\n| b |", "x[^1]\n\n[^1]: %P", "`%P`", "*%P*", "%P", "## %P", "- [x] %P", "t\n: %P", "[%P]\n\n[%P]: /u",
 	"[a](%P)", "![a](%P 'x')", "www.a.b/%P", "http://a.b/%P"}
 var c03ArenaHostile = []string{"\"><script>alert(1)</scri", "x\" onmouseover=\"alert(1)", "<!-- c --><b onx=1>&bog;", "'><img src=x onerror=al>", "&#0;&#xD800;\"<\">&&&&&&<<<"}
